@@ -858,3 +858,203 @@ def program_grid(tier):
         p("diamond 3x3", lambda np, x: (x @ x.T) * (x.T @ x), [R(3, 3)])
         p("inv then det", lambda np, x: np.linalg.det(np.linalg.inv(x)) * x, [R(2, 2)])
     return _uniq(out)
+
+
+# ----------------------------------------------------------------------------------------------
+# nested differentiation with NumPy primitives (C08-A / C07): call uses autograd operators, oracle is the closed form
+
+
+def nested_grid(tier):
+    import autograd
+
+    grad, make_jvp, make_vjp, egrad = autograd.grad, autograd.make_jvp, autograd.make_vjp, autograd.elementwise_grad
+    out = []
+
+    def n(lab, f, oracle, args, k=0):
+        c = Config("nested", "NEST " + lab, f, args, k, tags=("nested",))
+        c.oracle = oracle
+        out.append(c)
+
+    def dfw(f, at):  # forward-mode derivative of an elementwise function
+        return make_jvp(f)(at)(onp.ones(onp.shape(at)) if onp.shape(at) else 1.0)[1]
+
+    # classic perturbation confusion: d/dx [ x * d/dy (x + y) |_{y=1} ] = 1
+    n("x * d/dy(x+y) rev-in-rev", lambda np, x: x * egrad(lambda y: x + y)(onp.ones(2)), lambda np, x: x * 1.0, [R(2)])
+    n("x * d/dy(x+y) fwd-in-fwd/rev", lambda np, x: x * dfw(lambda y: x + y, onp.ones(2)), lambda np, x: x * 1.0, [R(2)])
+    n("x * d/dy(x*y) at y=x rev", lambda np, x: x * egrad(lambda y: x * y)(x), lambda np, x: x * x, [R(2)])
+    n("x * d/dy(x*y) at y=x fwd", lambda np, x: x * dfw(lambda y: x * y, x), lambda np, x: x * x, [R(2)])
+    n("x * d/dy(x*y*y) at y=x rev", lambda np, x: x * egrad(lambda y: x * y * y)(x), lambda np, x: 2 * x ** 3, [R(2)])
+    n("x * d/dy(x*y*y) at y=x fwd", lambda np, x: x * dfw(lambda y: x * y * y, x), lambda np, x: 2 * x ** 3, [R(2)])
+    n("grad of sum sin(x*y) wrt y at y=x", lambda np, x: grad(lambda y: np.sum(np.sin(x * y)))(x), lambda np, x: np.cos(x * x) * x, [R(2)])
+    n("inner closes over outer, dot", lambda np, x: grad(lambda y: np.dot(x, y) * np.dot(y, y))(2.0 * x), lambda np, x: x * np.dot(2 * x, 2 * x) + np.dot(x, 2 * x) * 4 * x, [R(2)])
+    n("depth 3 rev", lambda np, x: x * egrad(lambda y: y * egrad(lambda z: x * y * z * z)(y))(x), lambda np, x: x * (6 * x * x * x), [R(2)])
+    n("depth 3 mixed", lambda np, x: x * dfw(lambda y: y * egrad(lambda z: x * y * z * z)(y), x), lambda np, x: x * (6 * x * x * x), [R(2)])
+    n("depth 3 fwd", lambda np, x: x * dfw(lambda y: y * dfw(lambda z: x * y * z * z, y), x), lambda np, x: x * (6 * x * x * x), [R(2)])
+    n("inner at constant", lambda np, x: x * egrad(lambda y: x * y * y)(onp.array([3.0, 5.0])), lambda np, x: x * 2 * x * onp.array([3.0, 5.0]), [R(2)])
+    n("inner ignores outer", lambda np, x: x * egrad(lambda y: y * y)(x), lambda np, x: x * 2 * x, [R(2)])
+    n("scalar nested", lambda np, x: x * grad(lambda y: x * y * y)(x), lambda np, x: 2 * x ** 3, [SC])
+    n("hvp-like: grad(sum(grad f * v))", lambda np, x: grad(lambda z: np.sum(grad(lambda w: np.sum(w ** 3))(z) * x))(x), lambda np, x: 6 * x * x, [R(2)])
+    n("two inner derivatives summed", lambda np, x: egrad(lambda y: x * y)(x) + dfw(lambda y: y * y * x, x), lambda np, x: x + 2 * x * x, [R(2)])
+    return _uniq(out)
+
+
+# ----------------------------------------------------------------------------------------------
+# indexing (C11)
+
+
+def _idx_repr(i):
+    if isinstance(i, tuple):
+        return "(" + ", ".join(_idx_repr(j) for j in i) + ")"
+    if isinstance(i, slice):
+        return "%s:%s%s" % ("" if i.start is None else i.start, "" if i.stop is None else i.stop, "" if i.step is None else ":%s" % i.step)
+    if i is Ellipsis:
+        return "..."
+    if isinstance(i, onp.ndarray):
+        return "array(%s)" % (i.tolist(),)
+    return repr(i)
+
+
+def index_exprs(shape, tier):
+    nd = len(shape)
+    S_ = slice
+    basic = [0, -1, 1, S_(None), S_(1, None), S_(None, 2), S_(None, None, 2), S_(None, None, -1), S_(-2, None), S_(0, 0), None, Ellipsis]
+    red = [0, -1, S_(None), S_(1, None), S_(None, None, -1), None, Ellipsis]
+    out = []
+    for b in basic:
+        out.append(b)
+        out.append((b,))
+    pool = basic if (tier == "thorough" or nd <= 2) else red
+    if nd >= 2:
+        for a in pool:
+            for b in pool:
+                out.append((a, b))
+    if nd >= 3 or tier == "thorough":
+        for a in red:
+            for b in red:
+                for c in red:
+                    out.append((a, b, c))
+    # advanced indexing
+    n0 = shape[0]
+    adv = [[0, 0, n0 - 1], [n0 - 1, 0], [-1, 0, -1], onp.array([0, 0, 1 % n0]), onp.array([[0, n0 - 1], [n0 - 1, 0]]), onp.array([], dtype=int), [True] + [False] * (n0 - 1),
+           onp.array([i % 2 == 0 for i in range(n0)]), onp.array(0), (onp.array([0, 0]),), ([0, 0],)]
+    out.extend(adv)
+    if nd >= 2:
+        n1 = shape[1]
+        out.extend([([0, 1], [1, 1]), ([0, 0, 1], [n1 - 1, n1 - 1, 0]), (onp.array([[0], [1]]), onp.array([0, n1 - 1])), (S_(None), [0, 0]), ([1, 0], S_(None)), ([1, 0, 1], S_(None, None, -1)),
+                    (S_(1, None), [0, -1]), ([0, 1], None, S_(None)), (None, [0, 1]), (Ellipsis, [0, 0]), ([0], Ellipsis), (0, [0, 1, 1]), ([0, 1, 1], 0), ([0, 1], -1),
+                    onp.ones(shape[:2], dtype=bool), onp.array([[True, False] * n1][0][:n1] * 1 and [[(i + j) % 2 == 0 for j in range(n1)] for i in range(n0)]),
+                    (onp.array([True] + [False] * (n0 - 1)),), (S_(None), onp.array([j % 2 == 0 for j in range(n1)])), (onp.array([True] * n0), 0), (onp.array([i % 2 == 0 for i in range(n0)]), [0] * ((n0 + 1) // 2))])
+    if nd >= 3:
+        out.extend([([0, 1], S_(None), [1, 0]), ([0, 1], [1, 2], [0, 0]), (S_(None), [0, 1], [1, 0]), ([0, 1], [0, 1], S_(None)), (0, S_(None), [0, 0, 1]), (Ellipsis, [1, 0], 0),
+                    (onp.array([[0, 1]]), onp.array([[0], [2]]), 1), ([1], None, S_(None), [0]), onp.ones(shape[:2], dtype=bool), (S_(None), onp.ones(shape[1:], dtype=bool))])
+    # validity filter on a plain float array, dedupe by repr
+    probe = onp.arange(float(onp.prod(shape))).reshape(shape)
+    seen = set()
+    good = []
+    for i in out:
+        r = _idx_repr(i)
+        if r in seen:
+            continue
+        seen.add(r)
+        try:
+            probe[i]
+        except Exception:
+            continue
+        good.append(i)
+    return good
+
+
+def index_grid(tier):
+    out = []
+    shapes = [(3,), (2, 3), (2, 3, 2)] + ([(2, 2, 2, 2)] if tier == "thorough" else []) + [()]
+    for s in shapes:
+        if s == ():
+            for i in [(), Ellipsis, None, (None, None), (Ellipsis, None)]:
+                out.append(Config("getitem", "IDX x[%s] on shape %s" % (_idx_repr(i), list(s)), lambda np, x, _i=i: x[_i], [R()], 0, tags=("index",)))
+            continue
+        for i in index_exprs(s, tier):
+            out.append(Config("getitem", "IDX x[%s] on shape %s" % (_idx_repr(i), list(s)), lambda np, x, _i=i: x[_i], [R(*s)], 0, tags=("index",)))
+    # k sparse and m dense uses of ONE value, in every order
+    idxs = [[0, 0, 2], (slice(None, None, -1)), 1, onp.array([True, False, True]), slice(1, None)]
+    import itertools
+
+    for L in (2, 3, 4):
+        for pat in itertools.product("ID", repeat=L):
+            if "I" not in pat:
+                continue
+
+            def f(np, x, _pat=pat):
+                tot = None
+                for j, t in enumerate(_pat):
+                    if t == "I":
+                        term = np.sum(x[idxs[j % len(idxs)]] * float(j + 2))
+                    else:
+                        term = np.sum(x * onp.array([1.0, -2.0, 0.5]) * float(j + 1))
+                    tot = term if tot is None else tot + term
+                return tot
+
+            out.append(Config("getitem", "IDX mix order %s" % "".join(pat), f, [R(3)], 0, tags=("index", "mix")))
+    # the same with array-valued outputs and nested indexing
+    out.append(Config("getitem", "IDX x[1:][::-1][[0,0]] chained", lambda np, x: x[1:][::-1][[0, 0]], [R(3)], 0, tags=("index",)))
+    out.append(Config("getitem", "IDX x[idx] * x + x[idx2] array-valued mix", lambda np, x: x[[0, 0, 2]] * x + x[::-1], [R(3)], 0, tags=("index", "mix")))
+    out.append(Config("getitem", "IDX 2-D rows then cols", lambda np, x: x[[1, 0]][:, [0, 0, 2]], [R(2, 3)], 0, tags=("index",)))
+    out.append(Config("getitem", "IDX scalar picks summed x[0,1]+x[0,1]+x[1,2]", lambda np, x: x[0, 1] + x[0, 1] * 2.0 + x[1, 2], [R(2, 3)], 0, tags=("index", "mix")))
+    out.append(Config("getitem", "IDX x[i] for i in range: python loop", lambda np, x: sum(x[i] * float(i + 1) for i in range(3)), [R(3)], 0, tags=("index", "mix")))
+    return _uniq(out)
+
+
+# ----------------------------------------------------------------------------------------------
+# containers (C12-A)
+
+
+def container_grid(tier):
+    import autograd.builtins as ab
+
+    out = []
+
+    def c(lab, f, args, k=0):
+        out.append(Config("container", "CONT " + lab, f, args, k, tags=("container",)))
+
+    W = onp.array([[1.0, -2.0], [0.5, 3.0]])
+    c("tuple (array, scalar)", lambda np, t: np.sum(t[0] ** 2) * t[1], [(R(2), SC)])
+    c("list [a, b] dot", lambda np, l: np.dot(l[0], l[1]) + np.sum(l[1]), [[R(2), R(2)]])
+    c("dict {w, b}", lambda np, d: np.sum(np.tanh(np.dot(d["w"], onp.array([1.0, 2.0])) + d["b"])), [{"w": R(2, 2), "b": R(2)}])
+    c("dict.get / items / iteration", lambda np, d: np.sum(d.get("w") * 2.0) + sum(np.sum(v * v) for k_, v in sorted(d.items())) + sum(np.sum(d[k_]) for k_ in d), [{"w": R(2), "b": R(2)}])
+    c("nested depth 3: dict of list of tuples", lambda np, p: sum(np.sum(np.dot(w, onp.ones(2)) * b) for (w, b) in p["layers"]) + p["bias"] * 2.0,
+      [{"layers": [(R(2, 2), R(2)), (R(2, 2), R(2))], "bias": SC}])
+    c("tuple with an unused leaf", lambda np, t: np.sum(t[0] * 3.0), [(R(2), R(3), SC)])
+    c("nested tuple, same leaf used twice", lambda np, t: np.sum(t[0][0] * t[0][0] * t[1]) + np.sum(t[0][1]), [((R(2), R(2)), R(2))])
+    c("empty containers inside", lambda np, t: np.sum(t[1][0] ** 2), [((), [R(2)], {})])
+    c("tuple slice", lambda np, t: np.sum(t[1:][0]) * 2.0 + np.sum(t[:2][1] ** 2), [(R(2), R(2), R(2))])
+    c("tuple negative index", lambda np, t: np.sum(t[-1] * t[-2]), [(R(2), R(2), R(2))])
+    c("list concatenation + iteration", lambda np, l, k: sum(np.sum(e * float(i + 1)) for i, e in enumerate(l + [k])), [[R(2), R(2)], R(2)])
+    c("reflected concatenation", lambda np, l, k: sum(np.sum(e * float(i + 1)) for i, e in enumerate((k,) + l)), [(R(2), R(2)), R(2)])
+    c("concatenation of two traced lists", lambda np, l: sum(np.sum(e * float(i + 1)) for i, e in enumerate(l + l)), [[R(2), R(2)]])
+    c("len / in / unpacking", lambda np, t: (lambda a, b: np.sum(a * b) * len(t))(*t), [(R(2), R(2))])
+    c("wrt second container argument", lambda np, x, t: np.sum(x * t[0]) + t[1] * np.sum(x), [R(2), (R(2), SC)], 1)
+    c("wrt array next to a container", lambda np, x, t: np.sum(x * t[0]) + t[1] * np.sum(x), [R(2), (R(2), SC)], 0)
+    c("dict values()/keys()", lambda np, d: sum(np.sum(v) * float(i + 1) for i, v in enumerate(d.values())) * len(d.keys()), [{"a": R(2), "b": R(2)}])
+    # container-valued outputs through autograd's own constructors
+    T = lambda np: (lambda xs: tuple(xs)) if np is onp else ab.tuple
+    L = lambda np: (lambda xs: list(xs)) if np is onp else ab.list
+    Dd = lambda np: (lambda **kw: dict(**kw)) if np is onp else (lambda **kw: ab.dict(kw))
+    c("output tuple via autograd tuple", lambda np, x: T(np)((x * 2.0, np.sum(x * x))), [R(2)])
+    c("output list via autograd list", lambda np, x: L(np)([x[0] * x, x[::-1]]), [R(2)])
+    c("output dict via autograd dict", lambda np, x: Dd(np)(a=x * x, b=np.sum(x)), [R(2)])
+    c("output nested via constructors", lambda np, t: T(np)((L(np)([t[0] * 2.0, t[1] * t[0]]), t[1])), [(R(2), R(2))])
+    c("container in, container out", lambda np, d: T(np)((d["a"] * d["b"], d["b"] + 1.0)), [{"a": R(2), "b": R(2)}])
+    return _uniq(out)
+
+
+def flatten_cases():
+    W = onp.array([1.0, -2.0])
+    return [
+        ("tuple (array, scalar)", (R(2), SC), lambda np, t: np.sum(t[0] ** 2) * t[1]),
+        ("dict of list of tuples", {"layers": [(R(2, 2), R(2))], "bias": SC}, lambda np, p: sum(np.sum(np.dot(w, W) * b) for (w, b) in p["layers"]) + p["bias"] * 2.0),
+        ("list [a, b]", [R(2), R(3)], lambda np, l: np.sum(l[0]) * np.sum(l[1] ** 2)),
+        ("dict unsorted keys", {"z": R(2), "a": R(1), "m": SC}, lambda np, d: np.sum(d["z"]) * d["a"][0] + d["m"] ** 2),
+        ("single array", R(2, 2), lambda np, x: np.sum(x * x)),
+        ("scalar", SC, lambda np, x: x * x),
+        ("empty containers inside", ((), [R(2)], {}), lambda np, t: np.sum(t[1][0] ** 2)),
+        ("0-d array leaf", (R(), R(2)), lambda np, t: t[0] * np.sum(t[1])),
+    ]
